@@ -11,7 +11,7 @@ From J5V.lib Require Civil Decimal.
 From J5V.proofs Require CodecDecDecimal CodecDecTimeFast.
 From Coq Require Import Permutation.
 From J5V.model Require CodecDecCommute.
-From J5V.proofs Require CodecDecMsgSorted CodecDecReorder.
+From J5V.proofs Require CodecDecMsgSorted CodecDecReorder CodecDecLenient.
 Import ListNotations.
 Local Open Scope N_scope.
 
@@ -494,6 +494,39 @@ Example C03_example_timestamps :
   CodecDecTime.go_time_parse (T.text T.ex_utc) = Some (1577836800%Z, 0%Z) /\
   CodecDecTime.go_time_parse (T.text (T.mkT 2021 2 29 false 0 0 0 None None)) = None.
 Proof. repeat split; vm_compute; reflexivity. Qed.
+
+(* ------------------------------------------------------------------ the quantifier in one relation *)
+(* [lenient ty j j'] (proofs/CodecDecLenient.v): j' is obtained from j by ANY COMBINATION, AT ANY DEPTH, of
+   - respelling leaves: two spellings that the field kind's conversion maps to the same result (L_scalar,
+     L_enum: quoted / bare numbers, the four base64 forms, enum prefix, timestamps at any offset, ...),
+   - reordering the members of objects (L_object: a permutation),
+   - adding explicit null members for properties of objects (L_object: nulls; for an object without
+     members only below the nesting bound, hence the side condition),
+   through arrays, maps, oneof arms and nested objects (insignificant whitespace is absorbed by the
+   tokenizer: documents are related through their token reading).
+   If JSONToProto accepts a document it accepts every lenient variant of it, with the same message. *)
+Theorem C03_lenient_documents_same_message :
+  forall orc e root props bs bs' ms nulls ms1 ms' rest rest' me me' m',
+  CodecDecLenient.env_ok e -> lookup e root = Some (SObject props) ->
+  lex bs = (tokens_of (JObj ms) ++ rest, me) -> lex bs' = (tokens_of (JObj ms') ++ rest', me') ->
+  CodecDecReorder.null_members props nulls -> (nulls = [] \/ ms <> []) -> Permutation (nulls ++ ms) ms1 ->
+  CodecDecLenient.lenient_members orc e props ms1 ms' ->
+  decode_bytes orc e root bs = Ok m' -> decode_bytes orc e root bs' = Ok m'.
+Proof. exact CodecDecLenient.lenient_document. Qed.
+Print Assumptions C03_lenient_documents_same_message.
+
+(* the schema condition is the computable check that every correspondence case runs on the real schemas *)
+Theorem C03_lenient_condition_decidable : forall e, CodecDecCommute.env_commute e = true -> CodecDecLenient.env_ok e.
+Proof. exact CodecDecLenient.env_ok_of_check. Qed.
+Print Assumptions C03_lenient_condition_decidable.
+
+(* one instant at two offsets is a lenient pair of leaves (with the modelled time.Parse) *)
+Theorem C03_timestamp_spellings_are_lenient : forall orc e f g, T.time_oracle_is_model orc ->
+  T.shape f -> T.shape g -> T.in_range f = true -> T.in_range g = true ->
+  T.instant f = T.instant g -> T.nanos f = T.nanos g ->
+  CodecDecLenient.lenient orc e (FScalar KTimestamp) (JStr (T.text f)) (JStr (T.text g)).
+Proof. exact CodecDecLenient.timestamp_lenient. Qed.
+Print Assumptions C03_timestamp_spellings_are_lenient.
 
 (* the strict fast path of time.Parse (lib/Civil.v parse_rfc3339, against which the encoder's timestamp
    text is proved to read back) is subsumed by the modelled parser *)
